@@ -112,9 +112,8 @@ class Package(collections.namedtuple('Package', 'path, manifest')):
                 target = item.relative_to(root)
                 if not valid(target):
                     continue
-                if not item.is_dir():
-                    archive.write(item, target)
-                else:
+                archive.write(item, target)  # incl. directories: zipimport finds implicit namespace packages only if listed
+                if item.is_dir():
                     writeall(item, archive, root)
 
         descriptor = Manifest.path('.')
@@ -170,7 +169,7 @@ class Package(collections.namedtuple('Package', 'path, manifest')):
                 shutil.copytree(self.path, path)
             else:
                 with zipfile.ZipFile(self.path) as package:
-                    if all(self.PYSFX.search(n) for n in package.namelist()):  # is a zip-safe
+                    if all(n.endswith('/') or self.PYSFX.search(n) for n in package.namelist()):  # is a zip-safe
                         LOGGER.debug('Installing zip-safe package %s to %s', self.path, path)
                         path.parent.mkdir(parents=True, exist_ok=True)
                         path.write_bytes(self.path.read_bytes())
